@@ -113,17 +113,20 @@ Definition index_prop (c:(Z * list aln) * (list (Z*Z) * list (Z*Z))) : bool :=
   && forallb (fun pv => match first_index (fun a => fst pv <=? (re a - 1) / B) l 0 with Some i => snd pv =? i | None => snd pv =? Z.of_nat (length l) end) (snd (snd c)).
 
 (* ---------------------------------------------------------------- find_duplicates on BasicReadAssignment records *)
-(* case: keys of the records named by assignment_indices, in that order -> positions (0-based) find_duplicates selected *)
-Definition dedup_model (l:list akey) : list Z :=
-  map fst (dedup (fun a b => akey_eqb (snd a) (snd b)) (combine (map Z.of_nat (seq 0 (length l))) l)).
-Definition dedup_check (c:list akey * list Z) : bool := zs_eqb (dedup_model (fst c)) (snd c).
+(* case: (keys of the WHOLE assignment list, assignment_indices as passed by the caller: any sub-list of the positions, in any
+   order) -> the assignment indices find_duplicates selected *)
 Definition nthk (l:list akey) (i:Z) : akey := nth (Z.to_nat i) l (0, 0, 0, 0, []).
+Definition dedup_model (c:list akey * list Z) : list Z :=
+  map fst (dedup (fun a b => akey_eqb (snd a) (snd b)) (map (fun i => (i, nthk (fst c) i)) (snd c))).
+Definition dedup_check (c:(list akey * list Z) * list Z) : bool := zs_eqb (dedup_model (fst c)) (snd c).
 Fixpoint distinctb (l:list akey) : bool := match l with [] => true | x :: t => negb (existsb (akey_eqb x) t) && distinctb t end.
-(* the selected records are pairwise different, and every record has an equal selected one *)
-Definition dedup_prop (c:list akey * list Z) : bool :=
-  let kept := map (nthk (fst c)) (snd c) in
-  distinctb kept && forallb (fun x => existsb (akey_eqb x) kept) (fst c)
-  && forallb (fun i => (0 <=? i) && (i <? Z.of_nat (length (fst c)))) (snd c).
+(* the selected records are pairwise different, every record named by assignment_indices has an equal selected one, and only
+   indices that were passed are selected *)
+Definition dedup_prop (c:(list akey * list Z) * list Z) : bool :=
+  let keys := fst (fst c) in let idx := snd (fst c) in
+  let kept := map (nthk keys) (snd c) in
+  distinctb kept && forallb (fun i => existsb (akey_eqb (nthk keys i)) kept) idx
+  && forallb (fun i => existsb (Z.eqb i) idx) (snd c).
 
 (* ---------------------------------------------------------------- accounting_ok on the files of a pipeline run *)
 (* input records: (read id, (flag, reference_id, mapq)); cut-offs: (no_secondary, min_mapq, inconsistent, simple) *)
